@@ -106,3 +106,19 @@ package extendeddaemonset
 //@             && now < ers.Status.Conditions[failedIdx].LastTransitionTime.Time + 120000000000 ==> !result
 //@   ensures [C07,C13] only-when-it-reports-no-pods: result && ers != nil && ers.Status.Desired >= 0 && ers.Status.Current >= 0 && ers.Status.Ready >= 0 && ers.Status.Available >= 0
 //@             ==> ers.Status.Desired == 0 && ers.Status.Current == 0 && ers.Status.Ready == 0 && ers.Status.Available == 0
+//@
+//@ func (*Reconciler).cleanupReplicaSet
+//@   logs
+//@   requires r != nil && rsList != nil && r.client != nil
+//@   modifies nothing
+//@   ensures [C07,C13] only-deletes-list-elements: forall k int :: lognew(k) ==> logverb(k) == "Delete" && logobj(k) != nil && root(logobj(k)) == root(rsList.Items)
+//@   ensures [C07,C13] spares-replica-sets-in-use: forall k int, i int :: lognew(k) && 0 <= i && i < len(rsList.Items) && logobj(k) == &rsList.Items[i] ==>
+//@             current != nil && rsList.Items[i].ObjectMeta.Name != current.ObjectMeta.Name
+//@             && (upToDate == nil || rsList.Items[i].ObjectMeta.Name != upToDate.ObjectMeta.Name)
+//@             && shouldDeleteERS(now, &rsList.Items[i])
+//@   loop 1 invariant forall k int :: old(loglen()) <= k && k < loglen() ==> logverb(k) == "Delete" && logobj(k) != nil && root(logobj(k)) == root(rsList.Items)
+//@   loop 1 invariant forall k int, i int :: old(loglen()) <= k && k < loglen() && 0 <= i && i < len(rsList.Items) && logobj(k) == &rsList.Items[i] ==>
+//@             current != nil && rsList.Items[i].ObjectMeta.Name != current.ObjectMeta.Name
+//@             && (upToDate == nil || rsList.Items[i].ObjectMeta.Name != upToDate.ObjectMeta.Name)
+//@             && shouldDeleteERS(now, &rsList.Items[i])
+//@   loop 1 invariant old(loglen()) <= loglen()
